@@ -624,7 +624,8 @@ def check_handshake(P, R):
         exp, exp_b = expect, expect_b
         for kk, vv in p_.env.items():
             if isinstance(kk, tuple) and kk and kk[0] == "fixed":
-                exp, exp_b = exp.subst(kk[1], vv), exp_b.subst(kk[1], vv)
+                # also inside the arguments of the other sign symbols (the sign of the flipped difference depends on the flip)
+                exp, exp_b = conserve.deep_subst(exp, kk[1], vv), conserve.deep_subst(exp_b, kk[1], vv)
         if (got - exp) and (got - exp_b):
             okc = False
             why = got - exp
